@@ -344,6 +344,23 @@ let c09 (h : shist) : string list =
             end;
             go rest in
       go h.lines) h.insts;
+  (* failed blob provisioning only delays: v1 Provision() that got as far as CreatePartitions leaves the resource
+     provisioned even when that call reports an error, so the Start() that follows starts the loop *)
+  if h.gen = 1 then
+    Array.iteri (fun k (_ : sinst) ->
+        let created = ref false and prov_failed_create = ref false and stopped = ref false and started = ref false in
+        List.iter (fun ln ->
+            if ln.inst = k then
+              match ln.w with
+              | ["act"; "provision"; _; _] | ["act"; "provision"] -> created := false
+              | ["lm"; "create"; _] -> created := true
+              | ["provret"; e] -> if ios e = 5 && !created then prov_failed_create := true
+              | ["act"; "stop"] -> stopped := true
+              | ["startret"; e] ->
+                  if !prov_failed_create && not !stopped && not !started && ios e <> 0 then
+                    hits := (Printf.sprintf "c09:start-refused-after-failed-create inst=%d t=%d Start() returned error %s although Provision() had reached CreatePartitions (its failure must only delay acquisition)" k ln.t e) :: !hits;
+                  if ios e = 0 then started := true
+              | _ -> ()) h.lines) h.insts;
   (* faults never stop the loop or corrupt the figure: covered by c06 (figure) and the replay (loop keeps going) *)
   List.rev !hits @ c06 h
 
